@@ -10,7 +10,10 @@ from collections import Counter
 
 import vlib
 
-CONSUMERS = ["proc", "one", "ifE", "ifO", "take", "clear"]
+CONSUMERS = ["proc", "one", "ifE", "ifO", "untE", "untO", "take", "clear"]
+# calls that put events back (processIf: the declined ones; processUntil: the first one the predicate
+# stops at and everything behind it); C11 excludes them
+PUTBACK = ("ifE", "ifO", "untE", "untO")
 
 
 def gen_program(rng, profile):
@@ -36,9 +39,9 @@ def gen_program(rng, profile):
                     depth -= 1
             p += ["dqne"] * depth
         else:
-            choices = {"conserve": ["proc", "one", "ifE", "ifO", "take", "clear", "peek", "enq", "empty"],
+            choices = {"conserve": ["proc", "one", "ifE", "ifO", "untE", "untO", "take", "clear", "peek", "enq", "empty"],
                        "empty": ["proc", "one", "take", "clear", "empty", "empty", "enq"],
-                       "wait": ["proc", "one", "take", "enq", "empty", "ifE", "ifO"]}[profile]
+                       "wait": ["proc", "one", "take", "enq", "empty", "ifE", "ifO", "untE", "untO"]}[profile]
             for _ in range(rng.randint(1, 4)):
                 p.append(rng.choice(choices))
         progs.append(p)
@@ -117,8 +120,10 @@ def impl_oracles(progs, d):
             missing = set(range(n_enq_done)) - set(ids) - set(d["queue"])
             if missing:
                 return "C06", "events %s were enqueued but are neither queued nor consumed (lost)" % sorted(missing)
-    # single consumer thread, non-selective calls: consumption order = enqueue order
-    consumers = [t for t, p in enumerate(progs) if any(c in ("proc", "one", "take", "ifE", "ifO") for c in p)]
+    # single consumer thread, no processIf: consumption order = enqueue order.  processUntil is allowed
+    # (Lean: C06_order_single_consumer): it dispatches a prefix of what it swapped out and puts the rest
+    # back in FRONT of the queue, so its dispatches count like those of process
+    consumers = [t for t, p in enumerate(progs) if any(c in ("proc", "one", "take", "ifE", "ifO", "untE", "untO") for c in p)]
     if len(consumers) == 1 and not any(c in ("ifE", "ifO") for p in progs for c in p):
         seq = [c[0] for c in d["consumed"]]
         if seq != sorted(seq):
